@@ -425,6 +425,16 @@ func foldShapes(emit func(string)) {
 		{"1", "+", "(", "1", ")"}, {"1", ",", "(", "1", ")"}, {"foo", "=", "(", "bar", ")"}, {"foo", "+", "(", "1", ")"},
 		{"1", ")", ",", "(", "1"}, {"foo", ")", "+", "(", "bar"},
 	}
+	// the five-token pattern met with six tokens in the window (a two-token rule rewrites
+	// token 4 in place while slot 5 already holds the look-ahead): every pair of classes behind it
+	for _, head := range []string{"foo ) = ( in ", "foo ) = ( not in ", "1 ) , ( \\ + ", "foo ) ! ( in ", "( foo ) = ( in ", "1 like foo ) = ( in "} {
+		for _, a := range classReps {
+			emit(head + a)
+			for _, b := range classReps {
+				emit(head + a + " " + b)
+			}
+		}
+	}
 	tails := []string{"", " 1", " foo", " +", " )", " ,", " union select 1", " --", " or 1=1", " ( 1 )"}
 	heads := []string{"", "( ", "- ", "/**/ ", "1 ", "foo "}
 	for _, f := range five {
